@@ -90,7 +90,7 @@ func checkC02(c *hx.Ctx) {
 			{"C", "u01", "uF", "u12", "u20"},
 			{"C", "u01", "u02", "r01", "u12", "d1"},
 			{"Cdup", "C", "u01", "r01"},
-			{"C", "uI", "u01", "u12"},   // an earlier competitor whose delta fails protocol validation does not consume the commitment
+			{"C", "uI", "u01", "u12"},       // an earlier competitor whose delta fails protocol validation does not consume the commitment
 			{"C", "uM", "u02", "rI", "r01"}, // mismatching update / invalid recover delta as earlier competitors
 		}
 		labels := append([]string{}, hx.Pick(r, pools)...)
